@@ -33,6 +33,7 @@ func genPolicy(s *Stream, p *AttemptPlan) {
 	p.LogYield = s.Chance(1, 3)
 	p.DebugYield = s.Chance(1, 6)
 	p.ForeignCtx = s.Chance(1, 4)
+	p.WriteYield = s.Chance(1, 6)
 	p.SkipErrorCalls = s.Chance(1, 10) // a caller that goes straight to the next Stream call
 }
 
@@ -49,10 +50,14 @@ func pickStart(s *Stream, h *History, atUnitBoundary bool) Pos {
 		return Pos{h.Files[0].Name, 4}
 	}
 	// smaller index = earlier = more to deliver; index 0 preferred by shrinking
-	if s.Chance(1, 2) {
-		return ok[0]
+	st := ok[0]
+	if !s.Chance(1, 2) {
+		st = ok[s.N(len(ok))]
 	}
-	return ok[s.N(len(ok))]
+	if st.File == h.Files[0].Name && s.Chance(1, 12) {
+		st.File = "" // "the master's first binlog": legal in COM_BINLOG_DUMP and for SetBinlogPosition
+	}
+	return st
 }
 
 func genServerID(s *Stream) uint32 {
@@ -309,6 +314,17 @@ func invalidPayloadRaw(s *Stream, h *History) []byte {
 		}
 		return append(pre, e...)
 	}
+	if s.Chance(1, 150) {
+		// a truncated event that fills a MySQL packet completely (payload 2^24-1
+		// bytes): the transport layer sends an empty follow-up packet
+		n := 1<<24 - 2
+		p := make([]byte, n)
+		copy(p, s.Bytes(64))
+		l := uint32(n + 1 + s.N(200))
+		p[4] = byte(2 + s.N(30))
+		p[9], p[10], p[11], p[12] = byte(l), byte(l>>8), byte(l>>16), byte(l>>24)
+		return p
+	}
 	if s.Chance(1, 6) {
 		// the length field is the real length with one byte copied over another,
 		// two bytes swapped or one bit flipped; a third of these are >= 64 KiB so
@@ -466,6 +482,7 @@ func genFaultScenario(t *Tape, o *GenOpts, em faultEmphasis) *Scenario {
 	cs := t.S("cfg")
 	fs := t.S("fault")
 	sc := &Scenario{Hist: h, Start: pickStart(cs, h, true), ServerID: replicaIDOf(t)}
+	sc.Scribble = cs.Chance(1, 6) // a consumer that overwrites what it accepted, also across attempts
 	if em.Timeout {
 		sc.ReadTimeout = cs.Chance(1, 3)
 	}
@@ -484,6 +501,9 @@ func genFaultScenario(t *Tape, o *GenOpts, em faultEmphasis) *Scenario {
 		} else {
 			k := kinds[fs.N(len(kinds))]
 			at := fs.N(npk + 1)
+			if npk > 256 && fs.Chance(1, 3) {
+				at = 255 + 256*fs.N(npk/256) - fs.N(2) // around the packet whose sequence id wraps to 0
+			}
 			switch k {
 			case stopHandlerErr:
 				at = fs.N(len(exp) + 1)
@@ -529,7 +549,7 @@ func describeScenario(sc *Scenario) map[string]interface{} {
 	}
 	files := []string{}
 	for _, f := range h.Files {
-		files = append(files, fmt.Sprintf("%s(size=%d,gap=%d,events=%d)", f.Name, f.Size, f.Gap, len(f.Events)))
+		files = append(files, fmt.Sprintf("%s(size=%d,gap=%d,events=%d,crc32=%v)", f.Name, f.Size, f.Gap, len(f.Events), f.Checksum))
 	}
 	return map[string]interface{}{
 		"config": fmt.Sprintf("checksum=%v rowsV2=%v tableID4=%v gtid=%d server=%s", h.Cfg.Checksum, h.Cfg.RowsV2, h.Cfg.TableID4, h.Cfg.GTIDMode, h.Cfg.Format.ServerVersion),
